@@ -82,6 +82,13 @@ def kwargs_of(case):
     return kw
 
 
+def make_saver(case, dest):
+    """The two public entry points: the atomic_save() function and the AtomicSaver class itself."""
+    if case.get('entry') == 'class':
+        return fu.AtomicSaver(dest, **kwargs_of(case))
+    return fu.atomic_save(dest, **kwargs_of(case))
+
+
 class Result:
     __slots__ = ('fs', 'sim', 'exc', 'crashed', 'entered', 'body_done', 'pre_inos', 'pre_state')
 
@@ -123,7 +130,7 @@ def run_save(case, plan=None, log=None, hooks=None, fs=None, only_warmup=False):
     r.fs, r.sim, r.exc, r.crashed, r.entered, r.body_done = fs, sim, None, False, False, False
     saver = None
     try:
-        saver = fu.atomic_save(dest_arg, **kwargs_of(case))
+        saver = make_saver(case, dest_arg)
         # instance reuse: the same AtomicSaver object completed earlier saves (not judged, no faults)
         sim.armed = False
         if case.get('reuse') and case.get('warm_umask') is not None:
@@ -269,6 +276,9 @@ def gen_workload(rng, faults=False):
     if rng.random() < 0.6:
         case['dest_initial'] = {'data': bytes(rng.randrange(256) for _ in range(rng.randint(0, 12))).hex(),
                                 'mode': rng.choice([0o600, 0o644, 0o664, 0o444])}
+        if rng.random() < 0.12:
+            # legal but odd modes: setuid/setgid/sticky bits, no owner bits, nothing at all
+            case['dest_initial']['mode'] = rng.choice([0o4755, 0o2750, 0o1644, 0o6711, 0o040, 0o004, 0o066, 0o000, 0o007])
     if rng.random() < 0.12:
         # re-saving a slightly changed file: the old content is a near copy of the new one
         new = new_content(case)
@@ -298,7 +308,7 @@ def gen_workload(rng, faults=False):
                                 if rng.random() < 0.5 else None}
         case.pop('reuse', None)
     if faults:
-        case['file_perms'] = rng.choice([None, None, 0o600, 0o644, 0o666, 0o755])
+        case['file_perms'] = rng.choice([None, None, None, 0o600, 0o644, 0o666, 0o755, 0o600, 0o644, 0o4711, 0o040, 0])
         case['overwrite_part'] = rng.random() < 0.3
         case['rm_part_on_exc'] = rng.random() < 0.8
         if rng.random() < 0.25:
@@ -307,6 +317,8 @@ def gen_workload(rng, faults=False):
                 # the stale part 'file' is a symbolic link to somebody's file
                 case['part_initial'] = {'symlink': 'victim.txt', 'data': b'VICTIM DATA'.hex(), 'mode': 0o640}
                 case.pop('reuse', None)
+    if rng.random() < 0.15:
+        case['entry'] = 'class'     # AtomicSaver(...) instead of atomic_save(...)
     return case
 
 
@@ -381,7 +393,7 @@ def run_real(case):
             fu.__dict__.pop(name, None)
         exc = None
         try:
-            with fu.atomic_save(dest_name if case.get('dest_rel') else dest_abs, **kwargs_of(case)) as f:
+            with make_saver(case, dest_name if case.get('dest_rel') else dest_abs) as f:
                 for step in case['body']:
                     if step[0] == 'write':
                         f.write(step[1] if case.get('text_mode') else bytes.fromhex(step[1]))
@@ -488,7 +500,7 @@ def real_crash_enumeration(case, max_points=40):
                     fu.copy2, fu.copystat = _sh.copy2, _sh.copystat
                     for name in ('open', 'shutil', 'tempfile'):
                         fu.__dict__.pop(name, None)
-                    with fu.atomic_save(dest_name if case.get('dest_rel') else dest_abs, **kwargs_of(case)) as f:
+                    with make_saver(case, dest_name if case.get('dest_rel') else dest_abs) as f:
                         for step in case['body']:
                             if step[0] == 'write':
                                 f.write(step[1] if case.get('text_mode') else bytes.fromhex(step[1]))
